@@ -14,6 +14,7 @@ def run(ctx):
     ctx.proof_phase(extra_targets=['Corr/Check_Deploy.vo'])
     ds.run_cli_stream(ctx, 14 if quick else 200, 4 if quick else 8, props={'C04'})
     ds.run_cli_stream(ctx, 8 if quick else 120, 4, props={'C04'}, stream='shared_root', script=ds.script_shared_root_filter, setup=ds.setup_shared_root)
+    ds.run_cli_stream(ctx, 6 if quick else 100, 2, props={'C04'}, stream='prefix_siblings', script=ds.script_prefix_siblings)
     ds.run_cli_stream(ctx, 6 if quick else 100, 3, props={'C04'}, stream='symlinked_outputs', script=ds.script_symlinked_outputs,
                       setup=lambda cw, rng: ds.setup_shared_root(cw, rng) if rng.random() < 0.6 else ds.setup_two_roots(cw, rng))
     ds.run_lib_stream(ctx, 120 if quick else 2500, props={'C04'})
